@@ -513,6 +513,51 @@ def construct_case(acc, listkind, path, kinds):
     judge_construct(acc, ck, case, listkind, supplied, existing, run, flatten_required)
 
 
+CONTAINER_KINDS = ['tractlist', 'trslist', 'plssdesc', 'empty_tractlist', 'empty_trslist']
+CONTAINER_PATHS = ['constructor', 'extend', 'iadd', 'add']
+
+
+def container_case(acc, listkind, path, ckind):
+    """A library container handed over *as the iterable itself* (not inside a list): its elements are checked / converted like
+    any others (a TRSList made from a TractList holds TRS objects; a TractList does not accept the TRS objects of a TRSList)."""
+    cls_ = _p.TractList if listkind == 'tract' else _p.TRSList
+    ck = f"container|{listkind}|{path}|{ckind}"
+    case = {'op': 'container', 'listkind': listkind, 'path': path, 'ckind': ckind}
+    T = _p.Tract
+    if ckind == 'tractlist':
+        cont = _p.TractList([T('a', trs='5n6w07'), T('b', trs='5n6w08'), T('c', trs='5n6w07')])
+    elif ckind == 'trslist':
+        cont = _p.TRSList(['5n6w07', '5n6w08', '5n6w07'])
+    elif ckind == 'plssdesc':
+        cont = _p.PLSSDesc('T154N-R97W Sec 14: NE/4, Sec 15: W/2')
+    elif ckind == 'empty_tractlist':
+        cont = _p.TractList()
+    else:
+        cont = _p.TRSList()
+    supplied = list(cont.tracts) if ckind == 'plssdesc' else list(cont)
+    before = [id(e) for e in supplied]
+    base_elems = [_p.Tract('base', trs='3n4w05')] if listkind == 'tract' else [_p.TRS('3n4w05')]
+    existing = []
+    if path == 'constructor':
+        run = lambda: cls_(cont)
+    else:
+        existing = [entry_of(listkind, e) for e in base_elems]
+
+        def run():
+            c = cls_(base_elems)
+            if path == 'extend':
+                c.extend(cont)
+                return c
+            if path == 'iadd':
+                c += cont
+                return c
+            return c + cont
+    judge_construct(acc, ck, case, listkind, supplied, existing, run, True)
+    after = [id(e) for e in (cont.tracts if ckind == 'plssdesc' else cont)]
+    if after != before:
+        viol(acc, 'construct_changed_source', ck, case, got=len(after), exp=len(before), note='the container handed over was modified')
+
+
 def single_case(acc, listkind, path, kind):
     cls_ = _p.TractList if listkind == 'tract' else _p.TRSList
     ck = f"construct|{listkind}|{path}|{kind}"
@@ -605,6 +650,7 @@ def units(tier):
         for path in ITER_PATHS:
             us.append({'u': 'construct', 'listkind': kind, 'path': path})
         us.append({'u': 'single', 'listkind': kind})
+        us.append({'u': 'container', 'listkind': kind})
     for f in range(6):
         us.append({'u': 'dups', 'first': f})
     return us
@@ -613,7 +659,7 @@ def units(tier):
 def space(tier):
     return {'bound': f"lists of length <= {LMAX[tier]} over 7 pool elements per list kind; into-chaining for lists of length <= 2; "
                      f"construction iterables of length <= 3 over {len(KINDS)} element kinds x {len(ITER_PATHS)} paths; "
-                     f"{len(SINGLE_PATHS)} single-object paths",
+                     f"{len(SINGLE_PATHS)} single-object paths; {len(CONTAINER_KINDS)} library containers handed over as the iterable itself x {len(CONTAINER_PATHS)} paths",
             'caps_hit': []}
 
 
@@ -646,6 +692,10 @@ def run_unit(unit, tier):
                 continue
             for idx in lists:
                 op_group(acc, unit['kind'], idx, idx2)
+    elif unit['u'] == 'container':
+        for path in CONTAINER_PATHS:
+            for ckind in CONTAINER_KINDS:
+                container_case(acc, unit['listkind'], path, ckind)
     elif unit['u'] == 'construct':
         for L in range(0, 4):
             for kinds in itertools.product(KINDS, repeat=L):
@@ -663,6 +713,8 @@ def replay(case):
     op = case['op']
     if op == 'construct':
         construct_case(acc, case['listkind'], case['path'], tuple(case['kinds']))
+    elif op == 'container':
+        container_case(acc, case['listkind'], case['path'], case['ckind'])
     elif op == 'single':
         single_case(acc, case['listkind'], case['path'], case['kind'])
     elif op == 'str_iterable':
